@@ -107,5 +107,24 @@ check("C03",
                 "deviations (hash personalities), against a reference model",
       engine="explore", design="3/C03")
 
+check("C01",
+      passes=[dict(name="C01", src=["harness/C01.cpp"] + ENV, variant="fast", shards={"quick": 16, "thorough": 16})],
+      rule="every history of type-constructor requests (22 request forms: pointer, reference, rvalue reference, array, "
+           "qualified x7 sets, function with/without throws and transfer, product/sum from a warehouse and from an existing "
+           "sequence, forall, pointer-to-member, tor, as-type of expression / expression+transfer / identifier, three transfer "
+           "constructors) with operands from {int, char, class C, results of earlier steps}: full alphabet to depth 2 (quick) / 3 "
+           "(thorough), compact alphabet to depth 3 / 4, each under ascending, descending and alternating heap-address orders; "
+           "per step the model (key with normal forms -> id) decides 'must be node #k' or 'must be a node never seen'; all requests "
+           "re-issued in 3 orders at the end; plus long histories of 1024 (4096) keys per constructor family in 3 insertion orders "
+           "x 4 address modes. distinct_nontrivial = histories in which some request had to hit an existing node.",
+      text="All request histories up to the bound are executed on the real type factory under controlled address "
+           "orders and compared step by step with a key->node reference model.",
+      note="Normal forms are applied to the model key (nested qualification, natural transfer omitted, default throws = false). "
+           "Transfers built by different constructor functions may share a node; products are only keyed on sequences that no "
+           "longer change.",
+      technique="exhaustive enumeration of operation histories up to a depth bound on the implementation, with environment "
+                "deviations (address-order personalities), against a reference model",
+      engine="explore", design="3/C01", deadline={"quick": 150, "thorough": 1500})
+
 # Properties not claimed (with the reason that goes to MANIFEST.not_applicable).
 NOT_CLAIMED = {}
